@@ -609,7 +609,7 @@ def records(ctx, P):
                 ctx.unrecognised("REC: expected one DataRecord(...) in %s.%s" % (view.name, m))
                 continue
             calls = [recs[0][0]]
-            kw = {k: unparse(v) for k, v in recs[0][1].items()}
+            kw = {k: unparse(rules.inline_locals(fn, v)) for k, v in recs[0][1].items()}       # (locals that name a date of the customer are read through)
             n += 1
             sym = {"A": kw.get("arrival_date"), "S": kw.get("service_start_date"), "E": kw.get("service_end_date"), "X": kw.get("exit_date"), "IND": ind}
             for field, form in spec.items():
